@@ -155,8 +155,14 @@ def _run(prop, tier, test, seed, nshards, binary, outdir, t0):
                              cwd=os.path.join(HARNESS, "props"), env=env, stdout=lf, stderr=subprocess.STDOUT)
         procs.append((i, p, lf))
     rcs = {}
+    deadline = time.time() + float(os.environ.get("VERIF_TIMEOUT", "0") or 0 or (5400 if tier == "thorough" else 1200))
     for i, p, lf in procs:
-        rcs[i] = p.wait()
+        try:
+            rcs[i] = p.wait(timeout=max(1, deadline - time.time()))
+        except subprocess.TimeoutExpired:
+            p.kill()
+            rcs[i] = "killed at the run's overall time limit"
+            p.wait()
         lf.close()
 
     stats, problems, violations = [], [], []
